@@ -51,6 +51,15 @@ CHECKS = {
              'positional, alphabet = code points 40..119, precedence explicit > dna() > defaults per route for any route list.',
         technique='Lean 4 theorems over generated decoder + hand loop models tied by correspondence with real dna_to_hp and real backtests',
         ref='4 (C19)'),
+    'C20': dict(
+        text='Proof over hand models (tied by correspondence) of _fill_absent_candles and of the candle store: exactly one '
+             'candle per minute, timestamps start+60000k, provided candles kept, missing minutes flat at the previous close / '
+             'first open, for every pattern of present minutes; stored timestamps stay strictly increasing under every sequence '
+             'of new / repeated / older / unknown / zero-timestamp additions (invariant by induction), new appends, a stored '
+             'timestamp is replaced in place; the spacing check rejects.',
+        technique='Lean 4 induction over the fill loop and Pairwise invariant over add sequences; correspondence with the real functions; exhaustive bitmask oracle',
+        ref='4 (C20)',
+        note='The store model uses plain lists (DynamicNumpyArray = list is C18; composition not mechanised).'),
 }
 
 
